@@ -353,7 +353,8 @@ Inductive verdict : Type :=
 | RejectStep (n : nat) (e : Z)      (* label number n is not a move of the model (error e) *)
 | RejectPanic (n : nat) (site : Z)  (* the model panics at label n *)
 | RejectObs (rid : N)               (* an observed result differs from the model's *)
-| RejectMissing (rid : N).          (* a resolver of the run has no observed result *)
+| RejectMissing (rid : N)           (* a resolver of the run has no observed result *)
+| RejectLeftover (p : packet) (m : nat).  (* a frame of the model was never delivered or dropped *)
 
 Fixpoint run_v (cfg : config) (s : state) (tr : list (Z * label)) (n : nat) : state + verdict :=
   match tr with
@@ -377,7 +378,11 @@ Definition validate (cfg : config) (tr : list (Z * label)) (os : list obs) : ver
       | None =>
           match find (fun rid => negb (observed os rid)) (st_rids s) with
           | Some rid => RejectMissing rid
-          | None => Accept
+          | None =>
+              match st_net s with
+              | [] => Accept
+              | (p, m) :: _ => RejectLeftover p m
+              end
           end
       end
   end.
